@@ -51,7 +51,8 @@ type caseIn struct {
 	SkipRoot bool     `json:"skip"`
 	Handlers []string `json:"handlers"` // IgnoreErrors IgnoreMissing OnMissing OnError:PSwallow|PKeep|PReplace, in option order
 	Provider bool     `json:"provider"`
-	Conc     int      `json:"conc"` // 0 = no concurrency option
+	ProvFail []int    `json:"provfail"` // nodes for which StartProviding returns an error (the code only logs it)
+	Conc     int      `json:"conc"`     // 0 = no concurrency option
 	Tag      int64    `json:"tag"`
 	Label    string   `json:"label"`
 }
@@ -82,6 +83,10 @@ type caseOut struct {
 type fetchErr struct{ c cid.Cid }
 
 func (e fetchErr) Error() string { return "c12: fetch failed" }
+
+type provErr struct{ c cid.Cid }
+
+func (e provErr) Error() string { return "c12: provide queue full" }
 
 type customErr struct{ orig error }
 
@@ -176,6 +181,10 @@ func classOf(err error) string {
 	if errors.As(err, &fe) {
 		return "EOther"
 	}
+	var pe provErr
+	if errors.As(err, &pe) {
+		return "EProvider"
+	}
 	return "UNEXPECTED:" + err.Error()
 }
 
@@ -192,6 +201,10 @@ func (w *world) nodeOf(err error) int {
 	var fe fetchErr
 	if errors.As(err, &fe) {
 		return w.id(fe.c)
+	}
+	var pe provErr
+	if errors.As(err, &pe) {
+		return w.id(pe.c)
 	}
 	return -1
 }
@@ -236,16 +249,25 @@ func (w *world) options() []merkledag.WalkOption {
 		}
 	}
 	if in.Provider {
-		opts = append(opts, merkledag.WithProvider(provFunc(func(keys ...mh.Multihash) {
+		failing := map[int]bool{}
+		for _, i := range in.ProvFail {
+			failing[i] = true
+		}
+		opts = append(opts, merkledag.WithProvider(provFunc(func(keys ...mh.Multihash) error {
 			w.mu.Lock()
+			defer w.mu.Unlock()
+			var err error
 			for _, k := range keys {
 				if i, ok := w.byMh[string(k)]; ok {
 					w.out.Prov = append(w.out.Prov, i)
+					if failing[i] {
+						err = provErr{w.cids[i]}
+					}
 				} else {
 					w.out.Bad = "provider asked for an unknown multihash"
 				}
 			}
-			w.mu.Unlock()
+			return err
 		})))
 	}
 	switch {
@@ -257,12 +279,9 @@ func (w *world) options() []merkledag.WalkOption {
 	return opts
 }
 
-type provFunc func(keys ...mh.Multihash)
+type provFunc func(keys ...mh.Multihash) error
 
-func (p provFunc) StartProviding(force bool, keys ...mh.Multihash) error {
-	p(keys...)
-	return nil
-}
+func (p provFunc) StartProviding(force bool, keys ...mh.Multihash) error { return p(keys...) }
 
 // fake DAGService for FetchGraph: Get answers from the graph and records successes
 type fakeDAG struct{ w *world }
@@ -563,6 +582,17 @@ func genCase(e *vh.Env) caseIn {
 	if r.Intn(3) == 0 {
 		in.Lim = -1
 	}
+	if in.Provider && r.Intn(2) == 0 { // a provider that fails for some nodes: the walk must not notice
+		leaves := r.Intn(3) == 0
+		for _, nd := range in.Nodes {
+			if (leaves && len(nd.Links) == 0) || (!leaves && r.Intn(4) == 0) {
+				in.ProvFail = append(in.ProvFail, nd.ID)
+			}
+		}
+		if r.Intn(4) == 0 {
+			in.ProvFail = append(in.ProvFail, n) // the missing node behind the last one
+		}
+	}
 	if r.Intn(3) == 0 {
 		in.Kind = "fetch"
 		if in.Conc == 0 { // FetchGraph is concurrent unless told otherwise
@@ -593,6 +623,22 @@ func corpus() []caseIn {
 			)
 		}
 	}
+	// a provider that fails on a leaf (and on an interior node, and on a forgiven missing node) while other
+	// nodes are still to be walked: the provider's error is only logged, the walk goes on and returns nil
+	pf := []nodeIn{{ID: 0, Links: []int{1, 4, 5}}, {ID: 1, Links: []int{3, 2}}, {ID: 3}, {ID: 4, Links: []int{6}}, {ID: 5}, {ID: 6}}
+	for _, kind := range []string{"walk", "fetch"} {
+		for _, conc := range []int{0, 1, 2, 32} {
+			if kind == "fetch" && conc == 0 {
+				continue
+			}
+			for _, fail := range [][]int{{3}, {1}, {2, 6}, {0, 1, 2, 3, 4, 5, 6}} {
+				cs = append(cs, caseIn{Kind: kind, Nodes: pf, Lim: -1, Handlers: []string{"IgnoreMissing"}, Provider: true, ProvFail: fail,
+					Conc: conc, Tag: 10, Label: "corpus-failing-provider"})
+			}
+			cs = append(cs, caseIn{Kind: kind, Nodes: pf, Lim: 2, SkipRoot: true, Handlers: []string{"OnMissing", "IgnoreErrors"}, Provider: true,
+				ProvFail: []int{3, 5}, Conc: conc, Tag: 11, Label: "corpus-failing-provider"})
+		}
+	}
 	// depth limits: a diamond with a long and a short way to node 3, limits around the distances
 	dia := []nodeIn{{ID: 0, Links: []int{1, 3}}, {ID: 1, Links: []int{2}}, {ID: 2, Links: []int{3}}, {ID: 3, Links: []int{4}}, {ID: 4, Links: []int{5}}, {ID: 5}}
 	for lim := -1; lim <= 4; lim++ {
@@ -612,6 +658,7 @@ func TestC12(t *testing.T) {
 	e := vh.Load(t)
 	st := vh.NewStats("random link graphs up to 40 nodes (DAGs with sharing and forward edges; one in four arbitrary, with cycles and self links), " +
 		"missing/failing nodes at rates 0..1/3, depth limits -1..6, SkipRoot, 0..4 handler options in random order " +
+		"(half of the provider cases with a StartProviding that fails for random nodes / all leaves) " +
 		"(IgnoreErrors, IgnoreMissing, OnMissing, OnError swallow/keep/replace), provider on/off, concurrency none/1/2/3/8/32; " +
 		"two thirds through WalkDepth with a logging twin of the depth-aware visit function, one third through FetchGraphWithDepthLimit over a fake DAGService. " +
 		"Non-trivial = at least 5 visit calls or Gets and (a failing node was met or a node was visited more than once or concurrency > 1). Distinct by input and observation.")
@@ -663,6 +710,9 @@ func TestC12(t *testing.T) {
 		st.Count(fmt.Sprintf("lim=%d", in.Lim))
 		if in.SkipRoot {
 			st.Count("skiproot")
+		}
+		if len(in.ProvFail) > 0 {
+			st.Count("provider fails for some nodes")
 		}
 		if o.ErrK != "" {
 			st.Count("returned " + o.ErrK)
